@@ -329,10 +329,17 @@ class Slicer:
             step = None
         return slice(start, stop, step)
 
+    def _copy_for_sub_slice(self):
+        # shape and size are memoised per object; a sub-slice selects other data and must compute its own
+        new_slicer = copy(self)
+        new_slicer.__dict__.pop('shape', None)
+        new_slicer.__dict__.pop('size', None)
+        return new_slicer
+
     def __getitem__(self, item):
         # negative indexing not supported
         if isinstance(self.slices, list):
-            new_slicer = copy(self)
+            new_slicer = self._copy_for_sub_slice()
             new_slicer.slices = new_slicer.slices.__getitem__(item)
             return new_slicer
 
@@ -346,7 +353,7 @@ class Slicer:
                 col = item[1]
                 item = (item[0], slice(col, col + 1))
             if isinstance(item[0], slice) and isinstance(item[1], slice):
-                new_slicer = copy(self)
+                new_slicer = self._copy_for_sub_slice()
                 new_slicer.items = item
                 new_slicer.slices = (Slicer._process_sub_slice(self.slices[0], item[0], self.row_labels),
                                      Slicer._process_sub_slice(self.slices[1], item[1], self.col_labels))
